@@ -85,6 +85,12 @@ func c15MultiKey() *TextSet {
 		for _, t := range texts {
 			vs = append(vs, ref.MustParse(t))
 		}
+		// objects with more than 8 keys: Go maps iterate differently above one bucket
+		for _, v := range Large().Vals {
+			if o, ok := v.(map[string]interface{}); ok && len(o) >= 8 && len(o) <= 11 {
+				vs = append(vs, v)
+			}
+		}
 		return NewTextSet(vs)
 	})
 }
